@@ -47,7 +47,7 @@ INVARIANT OrderIrrelevant
 CHECK_DEADLOCK FALSE
 """
 
-COVERAGE_STAGE = "dep"
+COVERAGE_STAGE = "cov"
 ALL_SHAPES = '{"top", "child", "sib", "chain"}'
 DOMAINS = ("comb", "d1", "d2")
 
@@ -57,7 +57,8 @@ def inst(shapes, sigws, vocab, maxdrv, maxrich=0, explicit="FALSE", mutant=""):
 
 
 def stages(th):
-    s = [("explicit", inst("{}", "NoWs", "VocabPlaceFew", 0, explicit="TRUE"))]
+    s = [("explicit", inst("{}", "NoWs", "VocabPlaceFew", 0, explicit="TRUE")),
+         ("cov", inst('{"top"}', "W3", "VocabChain", 2))]           # small run with -coverage 1 (vacuity guard on Next)
     if th:
         s += [("place2", inst(ALL_SHAPES, "W3", "VocabPlaceAll", 2)),
               ("place3", inst(ALL_SHAPES, "W3", "VocabPlaceFew", 3)),
